@@ -299,7 +299,7 @@ func TestVerif_C19(t *testing.T) {
 	r := verifkit.Start(t, "C19", "handler")
 	r.Rule("PRNG exit-handler configurations (0-4 networks: in/around 127/8 in several spellings, default routes 0.0.0.0/0 and ::/0, /1../8 prefixes of either family, IPv6-only and IPv4-only exits probed with destinations of the other family; 0-3 domain patterns, sometimes nothing) x histories of add/remove of dynamic networks x crafted destinations " +
 		"(both sides of every network edge, IPv4-mapped spellings, IPv6, names served by a loopback DNS responder incl. case/trailing-dot/multi-level variants, address look-alikes); " +
-		"non-trivial = history with >=1 probe that connected and >=1 that was refused; distinct by (config, steps)")
+		"host names whose DNS answer changes between queries (first answer permitted but not connectable, later answer outside every network); non-trivial = history with >=1 probe that connected and >=1 that was refused; distinct by (config, steps)")
 	r.Assume("ground truth for 'connected' = accept on loopback listeners 0.0.0.0:p / [::1]:p; destinations outside 127.0.0.0/8 and ::1 cannot be observed in the sandbox and are not generated as connectable targets")
 	r.Assume("handler-level dynamic histories add a network only when it is absent (set and multiset readings of AddAllowedRoute agree); re-adding is judged in the agent part against ManageRoute's own list answer")
 
@@ -342,6 +342,8 @@ func TestVerif_C19(t *testing.T) {
 	r.Require("empty_config_probes", 50)
 	r.Require("refused_ipv4_dest_by_ipv6_only_config", 200)
 	r.Require("ipv6_literal_not_permitted", 40)
+	r.Require("rebind_probes_hostile", 100)
+	r.Require("rebind_connected_to_checked_address", 15)
 }
 
 func c19History(r *verifkit.R, ci int, rng *verifkit.Rand, env *c19Env) {
@@ -560,9 +562,129 @@ func c19History(r *verifkit.R, ci int, rng *verifkit.Rand, env *c19Env) {
 		return true
 	}
 
+	// rebind: a host name whose DNS answer changes between queries. First answer P lies in a present
+	// network, a later answer U in none. Only ONE address has a listener on the requested port q
+	// (bound to that address alone), so a dial to the other address is refused at once.
+	//   hostile : listener at U — the checked address P cannot be connected; nothing may reach U.
+	//   benign  : listener at P — connects to the checked, permitted address.
+	//   reversed: answers [U, P], listener at U — the first answer is refused by the check.
+	rebindN := 0
+	rebind := func() bool {
+		if systemResolver {
+			return true
+		}
+		nets := present()
+		usable := func(a netip.Addr) bool {
+			if !a.Is4() {
+				return false
+			}
+			b := a.As4()
+			return b[0] == 127 && b[3] != 0 && b[3] != 255
+		}
+		var P, U netip.Addr
+		for t := 0; t < 30 && !P.IsValid() && len(nets) > 0; t++ {
+			if pn, ok := kitParseNet(nets[rng.Intn(len(nets))]); ok {
+				a := c19Boundary(pn, rng)
+				if usable(a) && c19InAny(a, nets) {
+					P = a
+				}
+			}
+		}
+		for t := 0; t < 30 && !U.IsValid(); t++ {
+			if a := c19RandV4(rng); usable(a) && !c19InAny(a, nets) {
+				U = a
+			}
+		}
+		if !P.IsValid() || !U.IsValid() {
+			return true // nothing permitted in 127/8, or everything permitted: no rebinding case to build
+		}
+		variant := []string{"hostile", "hostile", "hostile", "benign", "reversed"}[rng.Intn(5)]
+		sched := []netip.Addr{P, U}
+		bindAt := U
+		switch variant {
+		case "benign":
+			bindAt = P
+		case "reversed":
+			sched = []netip.Addr{U, P}
+		}
+		if variant == "hostile" && rng.Chance(1, 3) { // a longer schedule: two checked answers, then the foreign one
+			sched = []netip.Addr{P, P, U}
+		}
+		rebindN++
+		name := kitRebindName(fmt.Sprintf("%dx%d", ci, rebindN), sched...)
+		for _, pat := range patterns {
+			if kitPatternMatch(pat, name) {
+				return true
+			}
+		}
+		ls, err := newKitSinkAt(bindAt)
+		if err != nil {
+			r.Add("rebind_bind_failed", 1)
+			return true
+		}
+		defer ls.Close()
+		streamID++
+		id := streamID
+		pr := &c19Probe{Req: name, Form: "name-rebinding-" + variant}
+		steps = append(steps, c19Step{Op: "probe", Probe: pr})
+		if herr := h.HandleStreamOpen(context.Background(), id, id+7, peer, name, uint16(ls.Port), eph); herr != nil {
+			pr.Reply = "sync-error"
+		} else {
+			rp, ok := w.waitReply(id)
+			if !ok {
+				r.Inconclusive("no reply to an open request within the watchdog")
+				return false
+			}
+			pr.Reply = fmt.Sprintf("err %d", rp.ErrCode)
+			if rp.Ack {
+				pr.Reply = "ack"
+			}
+		}
+		accs, ok := ls.barrier()
+		if !ok {
+			r.Inconclusive("sink barrier failed (watchdog)")
+			return false
+		}
+		h.HandleStreamClose(peer, id)
+		w.forget(id)
+		r.Add("probes", 1)
+		r.Add("rebind_probes_"+variant, 1)
+		if env.dns.AQueries(name) > 1 {
+			r.Add("rebind_name_resolved_more_than_once", 1) // informational
+		}
+		for _, a := range accs {
+			pr.Connected = append(pr.Connected, a.Dest.String())
+			if c19Permitted(name, a.Dest, nets, patterns) {
+				pr.Permitted = true
+				nConn++
+				r.Add("connected_permitted", 1)
+				r.Add("rebind_connected_to_checked_address", 1)
+				continue
+			}
+			r.Violation("connected-not-permitted:name-rebinding:later-dns-answer-outside-every-network", "hist", ci,
+				fmt.Sprintf("request for host name %q (DNS answers in order: %v; only %s listens on port %d) made the exit connect to %s:%d, which is in none of the present networks %v; A queries answered for the name: %d",
+					name, sched, bindAt, ls.Port, a.Dest, ls.Port, nets, env.dns.AQueries(name)),
+				map[string]any{"static": static, "patterns": patterns, "steps": steps})
+		}
+		if len(accs) == 0 {
+			nRef++
+			r.Add("refused_not_permitted", 1)
+			if variant == "hostile" {
+				r.Add("rebind_hostile_nothing_connected", 1)
+			}
+		}
+		return true
+	}
+
 	nsteps := rng.Range(18, 40)
 	for k := 0; k < nsteps; k++ {
 		c := rng.Intn(10)
+		if rng.Chance(1, 6) {
+			if !rebind() {
+				return
+			}
+			continue
+		}
 		switch {
 		case c == 0 && len(dynamic) < 4: // add a network that is not present in any spelling
 			nw := genNet()
